@@ -82,6 +82,22 @@ var c05Compilers = []c05Compiler{
 	{"expr-nil-map", func(s string) (*xpath.Machine, error) { return expr.NewExprMachine(s, nil) }},
 	{"leafref-nil-map", func(s string) (*xpath.Machine, error) { return leafref.NewLeafrefMachine(s, nil) }},
 	{"path_eval-nil-map", func(s string) (*xpath.Machine, error) { return path_eval.NewPathEvalMachine(s, nil, "mod:1") }},
+	// functions outside the table: allowed through a checker the caller supplies (it knows names that start with
+	// "site-"), or through the custom function table
+	{"path_eval-fn-checker", func(s string) (*xpath.Machine, error) {
+		return path_eval.NewPathEvalMachineWithCustomFns(s, c04Pfx, "mod:1", c05FnChecker)
+	}},
+	{"path_eval-nil-fn-checker", func(s string) (*xpath.Machine, error) {
+		return path_eval.NewPathEvalMachineWithCustomFns(s, c04Pfx, "mod:1", nil)
+	}},
+	{"expr-custom-functions", func(s string) (*xpath.Machine, error) { return expr.NewExprMachineWithCustomFunctions(s, c04Pfx) }},
+}
+
+func c05FnChecker(name string) (*xpath.Symbol, bool) {
+	if strings.HasPrefix(name, "site-") {
+		return xpath.NewDummyFnSym(name), true
+	}
+	return nil, false
 }
 
 // errorTextOK: the text quotes the expression and contains "<left> [X] <right>" with left+right == expr.
@@ -282,6 +298,9 @@ func c05RunNoTree(m *xpath.Machine) (o xpmock.Outcome) {
 
 func c05CompileInputs(r *core.Rng) []string {
 	var out []string
+	// calls of functions that are in no table
+	out = append(out, core.Pick(r, []string{"site-fn(../a) = 1", "site-fn()", "other-fn(../a) = 1", "site-fn(1, 'x') and count(a) > 0", "count(site-x(a)) + nosuchfn(1)",
+		"site-(1)", "site-fn(site-fn(site-fn(a)))", "text() and site-fn()", "/a[site-k(.) = 1]/b"}))
 	// random bytes
 	for i := 0; i < 4; i++ {
 		n := r.Intn(65)
